@@ -521,10 +521,26 @@ where
         // since the derivatives deque is unused while yielding runge-kutta steps
         if self.yield_memory == O + 2 {
             self.yield_memory = 0;
+            // The state was already yielded as the last runge-kutta step
+            if self.prev_values.back().unwrap().0 >= self.time.real() {
+                return Err(IVPStatus::Redo);
+            }
             self.prev_values
                 .push_back((self.time.real(), self.state.clone()));
             self.prev_values.pop_front();
             return Ok((self.time.real(), self.state.clone()));
+        }
+
+        // The runge-kutta steps leave no room for a bdf step before the end:
+        // commit to them unchecked and finish with one more runge-kutta step
+        if self.yield_memory == O + 1 && self.time.real() + self.dt.real() >= self.end.real() {
+            if self.time.real() < self.end.real() {
+                self.dt = self.end - self.time;
+                self.runge_kutta(1)?;
+                self.prev_values.pop_back();
+            }
+            self.yield_memory -= 1;
+            return Err(IVPStatus::Redo);
         }
 
         if self.time.real() >= self.end.real() {
